@@ -149,7 +149,8 @@ def check_edge_jacobians(ctx, e, where, fd=True, case=None, rng=None):
                 alt = sig.copy()
                 alt[rr] = -alt[rr]
                 with np.errstate(all="ignore"):
-                    if not np.all(np.abs(J - Jexp) <= tol) and np.all(np.abs(J - Jr * alt[:, None]) <= tol):
+                    # (the closer of the two: with a loose tolerance at large scales both may pass, and the margin should describe the right one)
+                    if float(np.nanmax(np.abs(J - Jr * alt[:, None]))) < float(np.nanmax(np.abs(J - Jexp))):
                         Jexp = Jr * alt[:, None]
                         ctx.count("sign_convention_undetermined_by_zero_rotational_error")
             all_ok &= ctx.close("jac-vs-AD", J, Jexp, tol, f, {"scale": s}, case)
